@@ -5,6 +5,7 @@ The conclusions are the `Spec` predicates the driver evaluates on the implementa
 -/
 import Otel.C02.Lemmas
 import Otel.C02.Sys
+import Otel.C02.Obs
 namespace Otel.C02
 open Spec
 
@@ -328,6 +329,72 @@ example :
     let s := Sys.run rs [⟨false, true⟩] [.add 0 1 5, .colc 1, .colx 1 0, .add 0 1 (-2), .col 0, .col 1, .col 2] true
     s.recs.map (fun rc => (rc.reader, rc.ok, rc.streams.map fun st => st.2.2.2)) =
       [(1, false, []), (1, true, [[(1, 5)]]), (0, true, []), (1, true, [[(1, -2)]]), (2, true, [[(1, 3)]])] := by
+  decide
+
+/-! ### observable instruments, overlapping collections (follow-up, seeded C02-6) -/
+
+private theorem frun_cons (insts : List OInst) (table : Table) (rs : List OReader) (x : RStep) (l : List RStep) :
+    frun insts table rs (x :: l) = frun insts table (fstepAll insts table rs x) l := rfl
+
+/-- Clause "seen by every registered reader", observable instruments: whatever the interleaving of the callback and
+aggregation steps of any number of readers (their pipelines have different locks, so their collections may overlap
+arbitrarily), reader `r` ends exactly as if only ITS OWN steps had been executed — every observation made by reader
+`r`'s callbacks lands in reader `r`'s aggregate functions and in no other reader's, and what `r` reports depends on
+nothing the other readers do. -/
+theorem obs_readers_independent (insts : List OInst) (table : Table) (rs : List OReader) (xs : List RStep) (r : Nat) :
+    (frun insts table rs xs)[r]? = (rs[r]?).map fun rd => (projR r xs).foldl (OReader.fstep insts table) rd := by
+  induction xs generalizing rs with
+  | nil => simp [frun, projR]
+  | cons x l ih =>
+    rw [frun_cons, ih]
+    simp only [fstepAll, List.getElem?_modify]
+    cases hrs : rs[r]? with
+    | none => simp
+    | some rd =>
+      by_cases hx : x.1 = r
+      · simp [hx, projR]
+      · simp [hx, projR]
+
+private theorem projR_append (r : Nat) (a b : List RStep) : projR r (a ++ b) = projR r a ++ projR r b := by
+  simp [projR, List.filterMap_append]
+
+private theorem projR_tagged_same (r : Nat) (l : List FStep) : projR r (tagged r l) = l := by
+  induction l with
+  | nil => rfl
+  | cons x l ih => simp only [tagged, List.map_cons, projR, List.filterMap_cons] at ih ⊢; simp [ih]
+
+private theorem projR_tagged_other (r r' : Nat) (h : r' ≠ r) (l : List FStep) : projR r (tagged r' l) = [] := by
+  induction l with
+  | nil => rfl
+  | cons x l ih => simp only [tagged, List.map_cons, projR, List.filterMap_cons] at ih ⊢; simp [h, ih]
+
+/-- … in particular the forced overlap the harness drives (reader `r1` parked in its callback of instrument `j` while
+reader `r2` performs a whole collection) leaves every reader in exactly the state of the two collections performed one
+after the other: overlapping collections of different readers are indistinguishable from sequential ones. -/
+theorem obs_overlap_equals_sequential (insts : List OInst) (table : Table) (rs : List OReader)
+    (n i t r1 r2 j : Nat) (h : r1 ≠ r2) :
+    frun insts table rs (ovlSched n i t r1 r2 j) = frun insts table rs (seqSched n i t r1 r2) := by
+  apply List.ext_getElem?
+  intro r
+  have hp : projR r (ovlSched n i t r1 r2 j) = projR r (seqSched n i t r1 r2) := by
+    simp only [ovlSched, seqSched, projR_append]
+    by_cases h1 : r = r1
+    · subst h1
+      simp [projR_tagged_same, projR_tagged_other _ _ (Ne.symm h), List.take_append_drop]
+    · by_cases h2 : r = r2
+      · subst h2
+        simp [projR_tagged_same, projR_tagged_other _ _ (Ne.symm h1)]
+      · have e1 := projR_tagged_other r r1 (Ne.symm h1)
+        have e2 := projR_tagged_other r r2 (Ne.symm h2)
+        simp [e1, e2]
+  rw [obs_readers_independent, obs_readers_independent, hp]
+
+/-- non-vacuity: a cumulative and a delta reader, an overlapped round between two sequential ones -/
+example :
+    let s := OSys.run [(.cumulative, .cumulative), (.delta, .delta)] [⟨true, .counter⟩]
+      [.set 0 1 384, .col 0, .col 1, .set 0 1 1024, .ovl 0 1 0, .set 0 1 2624, .col 0, .col 1]
+    s.recs.map (fun rc => (rc.2.1, rc.2.2.map fun st => st.2.2)) =
+      [(0, [[(1, 384)]]), (1, [[(1, 384)]]), (1, [[(1, 640)]]), (0, [[(1, 1024)]]), (0, [[(1, 2624)]]), (1, [[(1, 1600)]])] := by
   decide
 
 end Otel.C02
